@@ -37,6 +37,13 @@ def ref_obl(H):
                 obj = ns
                 for part in k.split("."):
                     obj = getattr(obj, part)
+                if k in getattr(H, "REF_SPLIT", ()):
+                    # one obligation per leading index of a large array field (keeps every query far below the timeout)
+                    got = vs(obj)
+                    for i in range(len(v)):
+                        eq = X.eq_arr(got[i], v[i])
+                        out.append((f"S'.{k}[{i}] == reference", eq if when is None else when.implies(eq)))
+                    continue
                 eq = X.eq_arr(vs(obj), v)
                 out.append((f"S'.{k} == reference", eq if when is None else when.implies(eq)))
         return out
